@@ -23,7 +23,9 @@ RULE = (
     "{0,1,2,1199,1200,1201,4096,65536,default}, stream counts in {0,1,2,3,128}) and the sender writes 0x/1x/2x/10x the limit on "
     "1..limit+3 streams of each kind (one write or many, FIN, reset mid-way) over a lossy/duplicating/reordering network; the "
     "receiver's own MAX_* updates get lost, duplicated and reordered; in 30% of the cases the client resumes a session with lower-or-equal remembered "
-    "limits and writes before the handshake completes (0-RTT). non-trivial = the ledger saw the sender exactly exhaust a "
+    "limits and writes before the handshake completes (0-RTT); in 35% the three per-stream transport parameters (bidi_local, bidi_remote, uni) "
+    "differ and peers answer on streams they did not open; in 25% the peer injects MAX_DATA / MAX_STREAM_DATA / MAX_STREAMS frames with value 0 "
+    "(limits never go backwards); at the end every byte that was on the wire once must have reached the peer application. non-trivial = the ledger saw the sender exactly exhaust a "
     "limit and later send beyond it after an update was delivered; distinct = hash(limit configuration bucket, op multiset, fate multiset)."
 )
 ASSUMPTIONS = [
@@ -162,7 +164,7 @@ def run_batch(batch):
         o = sc["opts"]
         sig = tuple((k, o[k]) for k in sorted(o) if k.startswith("max_"))
         sim, ok = run_case(sc, [led, dm], res, {"gen": "limits", "seeds": [seed]},
-                           counters=("stream_frames", "updates_delivered", "retransmitted_bytes", "bytes_checked", "zero_rtt_stream_frames"),
+                           counters=("stream_frames", "updates_delivered", "retransmitted_bytes", "bytes_checked", "zero_rtt_stream_frames", "delivery_checks"),
                            nontrivial=lambda s: bool(led.progress_after_block), sig_extra=sig)
         res.count("runs_blocked_then_progressed", 1 if led.progress_after_block else 0)
         res.count("runs_blocked", 1 if led.blocked_seen else 0)
